@@ -815,10 +815,11 @@ REQUIRED = [
     "simplifyUnionsWithSuperclasses_widens", "findCommonSuperClasses_widens", "collapseLongUnions_widens",
     "adjustGenericType_widens", "normalizeGenericSelfTypes_widens", "removeDuplicates_widens",
     "combineReturnsAndExceptions_widens", "absorbMutableParameters_widens", "mergeTypeParameters_widens",
-    "optimize_widens", "optimize_widens_functions", "optimize_widens_classes", "optimize_widens_signature",
+    "optimize_widens", "optimize_widens_before_adjustSelf", "adjustSelf_only_receiver", "optimize_widens_functions", "optimize_widens_classes", "optimize_widens_signature",
     "optimize_widens_ty", "widens_not_full_mixed", "widens_not_full_cyclic", "lossless_changes",
     "optimize_idempotent_not_full", "optimize_idempotent_not_full_object", "optimize_idempotent_not_full_lookup",
     "optimize_idempotent_partial", "removeDuplicates_idempotent", "joinTypes_idempotent",
+    "simplifyUnions_exact", "simplifyContainers_exact", "simplifyUnionsWithSuperclasses_exact",
 ]
 
 
@@ -863,15 +864,19 @@ def run_cases(mods, drv, cases, abcs):
   out = drv.batch(lines)
   assert len(out) == 2 * len(cases), (len(out), len(cases))
   dis = []
-  stats = {"changed": 0, "in_guard": 0, "unsupported": 0, "compared": 0}
+  stats = {"changed": 0, "in_guard": 0, "unsupported": 0, "compared": 0, "fuel_short": 0}
   for i, c in enumerate(cases):
     m, g = out[2 * i], out[2 * i + 1]
     if m == "unsupported":
       stats["unsupported"] += 1
       continue
     stats["compared"] += 1
-    if g == "1 1":
+    if g.startswith("1 1"):
       stats["in_guard"] += 1
+    if not g.endswith(" 1"):
+      stats["fuel_short"] += 1
+      dis.append({"kind": c.kind + ": CombineContainers fuel of the model not sufficient", "opts": c.opts,
+                  "input": c.codec.unit(c.unit), "real": "-", "model": g})
     if c.real_err is not None:
       rc = "EXC " + c.real_err
     else:
@@ -1081,7 +1086,7 @@ def correspond(res, rng, tier):
   disagreements += d4
 
   # 4) bundled stubs (thorough): in-fragment declarations of builtins.pytd / typing.pytd, as the loader resolves them
-  st4 = {"compared": 0, "changed": 0, "in_guard": 0, "unsupported": 0}
+  st4 = {"compared": 0, "changed": 0, "in_guard": 0, "unsupported": 0, "fuel_short": 0}
   bundled_dropped = 0
   if tier == "thorough":
     from pytype import config, load_pytd
@@ -1136,6 +1141,7 @@ def correspond(res, rng, tier):
       "emitted_inside_theorem_guard": st3["in_guard"], "emitted_changed": st3["changed"],
       "bundled_cases": st4["compared"], "bundled_decls_outside_fragment": bundled_dropped,
       "bundled_inside_theorem_guard": st4["in_guard"], "bundled_changed": st4["changed"],
+      "model_fuel_insufficient": st1["fuel_short"] + st2["fuel_short"] + st3["fuel_short"] + st4["fuel_short"],
       "options_pytype_share": sum(1 for c in cases if c.opts == PYTYPE_OPTS) / max(1, len(cases)),
       "seconds_generated": round(t1 - t0, 1), "seconds_total": round(time.time() - t0, 1),
   })
@@ -1360,7 +1366,7 @@ def main():
                    "types are well-kinded (kok): TupleType over a tuple class, CallableType over typing.Callable, generic bases are class references",
                    "ClassType.name equals the name of the class it points to (str(t) is cls.name); alias-resolved ClassTypes are outside the model",
                    "no union reached by SimplifyUnionsWithSuperclasses holds NamedType(n) next to ClassType(n) (guard suwsOK; its failure is known finding c11-same-str-members)",
-                   "remove_mutable=True: the single visitors are proved, their composition is not (visitors.AdjustSelf narrows `self: Any` by design); MergeTypeParameters only without class-level type parameters",
+                   "remove_mutable=True: the pipeline is proved to widen up to visitors.AdjustSelf, which re-annotates a receiver typed Any with its class (adjustSelf_only_receiver: the one deliberate narrowing); MergeTypeParameters is modelled only where no enclosing class has type parameters",
                    "CombineContainers re-visits joined parameters with fuel 2*size+4 (exhaustion would show as a K disagreement)"])
 
 
